@@ -935,8 +935,55 @@ func ruleWriterPublishes(r *Run) {
 			if !ok {
 				return
 			}
+			isMutator := func(f *ssa.Function) bool {
+				return f != nil && e.Mutates(f) && f.Signature.Recv() != nil && namedOf(f.Signature.Recv().Type()) == stateT
+			}
 			callee := staticCallee(c)
-			if callee == nil || !e.Mutates(callee) || callee.Signature.Recv() == nil || namedOf(callee.Signature.Recv().Type()) != stateT {
+			if callee != nil && !isMutator(callee) && (p.isTransparent(callee) || (callee.Parent() != nil && len(p.literalCallSites(callee)) > 0)) {
+				// the mutation is made by a helper of the writer (a local `add := func(…) error { …; return s.appendHandler(…) }`
+				// or an extracted function): the call of that helper is the mutation
+				var inner *ssa.Function
+				p.eachInstrRegion(callee, func(_ *ssa.Function, x ssa.Instruction) {
+					if cx, ok := x.(ssa.CallInstruction); ok && isMutator(staticCallee(cx)) {
+						inner = staticCallee(cx)
+					}
+				})
+				if inner == nil {
+					return
+				}
+				n++
+				k := key + "/publishes-after:" + shortFunc(inner)
+				var badRet ssa.Instruction
+				q := pathQuery{fn: fn, start: in,
+					barrier: func(x ssa.Instruction) bool { return isCall(x, nStoreState) },
+					target: func(x ssa.Instruction) bool {
+						rt, ok := x.(*ssa.Return)
+						if !ok {
+							return false
+						}
+						if ei >= 0 {
+							allNil := true
+							for _, o := range p.resultValuesAt(rt, ei) {
+								if !isNilConst(o) {
+									allNil = false
+								}
+							}
+							if !allNil && p.returnUnderErrTest(rt) {
+								return false
+							}
+						}
+						badRet = x
+						return true
+					}}
+				if w, _ := q.find(); w != nil {
+					r.bad(k, badRet.Pos(), "after %s (through %s) mutated the cloned state there is a path to a successful return that never calls storeState: the change is computed on a private copy and dropped (%s)",
+						shortFunc(inner), shortFunc(callee), p.describePath(w))
+				} else {
+					r.ok(k, in.Pos(), "every successful return after the mutation (made through %s) passes through storeState", shortFunc(callee))
+				}
+				return
+			}
+			if !isMutator(callee) {
 				return
 			}
 			n++
